@@ -290,6 +290,52 @@ pub fn sdt<const P: u8>(via_sink: bool) {
     kani::cover!(true, "REACHED");
 }
 
+/// generic user-defined table: one in-range write of every width at a symbolic offset (the header,
+/// the Length field and the checksum byte itself included), then a second one. C13 has the full
+/// model; this puts the table's write operations in front of C01's own verdict. (After a write
+/// into the Length field "Length == bytes emitted" is not demanded, so P=2 stops here.)
+pub fn sdt_write<const P: u8>(kind: u8) {
+    use acpi_tables::sdt::Sdt;
+    if P != 1 {
+        kani::cover!(true, "REACHED");
+        return;
+    }
+    let oem = one_byte_oem();
+    let mut t = Sdt::new(*b"TEST", 40, 1, oem.0, oem.1, oem.2);
+    let mut step = 0;
+    while step < 2 {
+        let off: usize = kani::any();
+        match kind {
+            0 => {
+                kani::assume(off <= 39);
+                t.write_u8(off, kani::any());
+            }
+            1 => {
+                kani::assume(off <= 38);
+                t.write_u16(off, kani::any());
+            }
+            2 => {
+                kani::assume(off <= 36);
+                t.write_u32(off, kani::any());
+            }
+            3 => {
+                kani::assume(off <= 32);
+                t.write_u64(off, kani::any());
+            }
+            _ => {
+                kani::assume(off <= 37);
+                let d: [u8; 3] = kani::any();
+                t.write_bytes(off, &d);
+            }
+        }
+        let r: Rec<44> = Rec::of(&t);
+        let e: Exp<44> = Exp::new();
+        fixed_verdicts::<P, 44>(&r, &e);
+        step += 1;
+    }
+    kani::cover!(true, "REACHED");
+}
+
 /// SLIT (ACPI 6.5 5.2.17): header, locality count (8), n*n distances; one symbolic assignment.
 /// (C12 has the matrix semantics; this ties the table to C01/C02/C04.)
 pub fn slit<const P: u8>() {
